@@ -3,8 +3,11 @@ irregular times, a release TABLE with times and multiplicities, output period, I
 disk, run through ladim.main.main, and described to Coq by times and values (not by steps: the step of
 every time, the bracketing frames, the interpolation and the release schedule are computed by the model).
 
-desc = {N, rev, S, p, life, fsteps[], u[], temp[], cuts[], rows[[step, mult, x, cls]], outside[...], cont}
+desc = {N, rev, S, p, life, fsteps[], u[], temp[], cuts[], rows[[step, mult, x, cls]], outside[...], cont, land[]}
 cont = continuous-release frequency in seconds (0 / absent: discrete release).
+land = x-cells whose whole column is land in the grid / forcing files (absent: none): the real code masks the
+u-faces next to them (the flow a particle feels is interpolated between its two u-faces), cancels every move
+onto them; no particle is released in one.
 Physical layout: 20 x 8 grid, three unstretched levels; class c (depth 100/60/20 m) feels the velocity of
 level c = u(t) * CFAC[c]; the scalar field is uniform.  All values are dyadic and the increments per step are
 multiples of the frame spacing, so that the float arithmetic of the run is exact.
@@ -22,7 +25,7 @@ DT, DX = si.DT, si.DX
 CFAC = [1.0, 0.5, 2.0]
 
 
-def gen_setup(rng, rev=None, cont_mode=None):
+def gen_setup(rng, rev=None, cont_mode=None, land_mode=None):
     N = rng.randint(3, 9)
     rev = (rng.random() < 0.5) if rev is None else rev
     first = rng.choice([0, 0, -1, -3])
@@ -75,9 +78,23 @@ def gen_setup(rng, rev=None, cont_mode=None):
             outside.append([-rng.randint(1, 3), 1, 5.0, 0])
         if rng.random() < 0.4:
             outside.append([N + rng.randint(0, 2), 2, 6.0, 1])
-    return {"N": N, "rev": bool(rev), "S": 50000 + 64 * rng.randint(0, 500), "p": rng.choice([1, 1, 2, 3]),
+    desc = {"N": N, "rev": bool(rev), "S": 50000 + 64 * rng.randint(0, 500), "p": rng.choice([1, 1, 2, 3]),
             "life": rng.choice([-1, -1, 2, 3, 5]), "fsteps": fsteps, "u": u, "temp": temp, "cuts": cuts,
             "rows": rows, "outside": outside, "cont": cont}
+    # land: in about half of the set-ups 0-3 cells strictly inside the valid region, never a release cell
+    land = []
+    if (rng.random() < 0.5) if land_mode is None else land_mode:
+        used = {round(r[2]) for r in rows + outside}
+        free = [i for i in range(2, 17) if i not in used]
+        # mostly next to a release cell, so that particles reach the masked faces within the few steps of a run
+        near = [i for i in free if (i - 1) in used or (i + 1) in used or (i - 2) in used or (i + 2) in used]
+        for _ in range(rng.randint(0, 3) if land_mode is None else rng.randint(1, 3)):
+            pool = near if (near and rng.random() < 0.7) else free
+            if pool:
+                land.append(rng.choice(pool))
+        land = sorted(set(land))
+    desc["land"] = land
+    return desc
 
 
 def physical(desc):
@@ -123,7 +140,7 @@ def run(d, name, desc, phys, rev):
     for k, fr in enumerate(files):
         ul = [[u * CFAC[lev] for lev in range(si.NLEV)] for _, u, _ in fr]
         tl = [[tt] * si.NLEV for _, _, tt in fr]
-        si.write_forcing(d, f"f_{name}_{k:03d}.nc", [x for x, _, _ in fr], ul, tl)
+        si.write_forcing(d, f"f_{name}_{k:03d}.nc", [x for x, _, _ in fr], ul, tl, land=desc.get("land"))
     rf.write_release(d / f"r_{name}.rls", [[x, m, xx, 4.0, si.ZCLS[c]] for x, m, xx, c in rel])
     env = {"p": desc["p"], "life": desc["life"]}
     conf = si.config(d, env, S, stop, f"o_{name}.nc", f"r_{name}.rls", f"f_{name}_*.nc", rev=rev)
@@ -139,6 +156,8 @@ def enc_setup(desc, phys, rev):
     ints = [S, stop, DT, 1 if rev else 0, desc["p"], int(desc.get("cont", 0))] + fl(DT / DX) + fl(si.LO) + fl(si.HI) + [desc["life"], len(CFAC)]
     for c in CFAC:
         ints += fl(c)
+    land = [int(i) for i in desc.get("land", [])]
+    ints += [len(land)] + land
     ints += [len(files)]
     for f in files:
         ints += [len(f)]
@@ -209,7 +228,7 @@ def eval_restart(desc, d, numrec):
     for k, fr in enumerate(files):
         ul = [[u * CFAC[lev] for lev in range(si.NLEV)] for _, u, _ in fr]
         tl = [[tt] * si.NLEV for _, _, tt in fr]
-        si.write_forcing(d, f"f_{name}_{k:03d}.nc", [x for x, _, _ in fr], ul, tl)
+        si.write_forcing(d, f"f_{name}_{k:03d}.nc", [x for x, _, _ in fr], ul, tl, land=desc.get("land"))
     rf.write_release(d / f"r_{name}.rls", [[x, m, xx, 4.0, si.ZCLS[c]] for x, m, xx, c in rel])
     env = {"p": desc["p"], "life": desc["life"]}
     conf = si.config(d, env, S, stop, f"o_{name}.nc", f"r_{name}.rls", f"f_{name}_*.nc", rev=rev, numrec=numrec)
